@@ -32,6 +32,7 @@ func runC08(c *core.Ctx) {
 	ruleLZWPrefixOrder(c)
 	ruleIndexClamps(c)
 	ruleDCTPlaneCharge(c)
+	ruleAliasHygiene(c, [3]string{"C08-R11", "C08-R12", "C08-R13"}, "pdf/internal/filter/jbig2", "pdf/internal/filter/dct/jpeg")
 }
 
 // filterImplementers lists the named types of package pdf that implement pdf.Filter.
